@@ -100,3 +100,10 @@ Definition fuel_for (v : pyval) : nat := (size v + 2)%nat.
 
 (* the composite the property speaks about *)
 Definition roundtrip (fuel : nat) (v : pyval) : res pyval := bind (py2pl fuel v) (pl2py fuel).
+
+(* type specifiers of problog_export *)
+Definition ts_str : pyval := PStr [115%N; 116%N; 114%N].
+Definition ts_int : pyval := PStr [105%N; 110%N; 116%N].
+Definition ts_float : pyval := PStr [102%N; 108%N; 111%N; 97%N; 116%N].
+Definition ts_list : pyval := PStr [108%N; 105%N; 115%N; 116%N].
+Definition ts_term : pyval := PStr [116%N; 101%N; 114%N; 109%N].
